@@ -1,5 +1,6 @@
 import TextxVerif.Proofs.PegTermsTok
 import TextxVerif.Tx.Build
+import TextxVerif.Tx.GapCompat
 /-!
 # Gap extension and model construction (C22)
 
@@ -35,21 +36,6 @@ theorem slice_extendGap (inp : Array Char) (p : Nat) (ins : List Char) (hp : p â
       congr 1
       omega
   Â· rfl
-
-/-- the regex-group table entry `(start, length)` of token `t` at position `q` -/
-def g1At (g1 : Array (Array (Option (Nat Ã— Nat)))) (t q : Nat) : Option (Nat Ã— Nat) :=
-  (g1[t]?).bind (fun row => (row[q]?).join)
-
-/-- the group-1 tables of the original and of the extended input agree up to the shift, and no group span
-overlaps the insertion point (the `use_regexp_group` analogue of `tokCompatAt`) -/
-def g1CompatAt (g1 g1' : Array (Array (Option (Nat Ã— Nat)))) (p k t q : Nat) : Bool :=
-  match g1At g1 t q with
-  | some (s, l) => g1At g1' t (sh p k q) == some (sh p k s, l) && (decide (s + l â‰¤ p) || decide (p â‰¤ s))
-  | none => g1At g1' t (sh p k q) == none
-
-def g1CompatB (g1 g1' : Array (Array (Option (Nat Ã— Nat)))) (size p k : Nat) : Bool :=
-  (List.range (max g1.size g1'.size)).all fun t =>
-    (List.range (size + 1)).all fun q => g1CompatAt g1 g1' p k t q
 
 theorem g1At_none_of_size {g1 : Array (Array (Option (Nat Ã— Nat)))} {t : Nat} (h : g1.size â‰¤ t) (q : Nat) :
     g1At g1 t q = none := by
